@@ -14,15 +14,9 @@ ROOT = os.path.dirname(os.path.dirname(os.path.abspath(__file__)))
 
 
 def _jsonable(x):
-    if isinstance(x, (bytes, bytearray)):
-        return {"__bytes__": bytes(x).hex()}
-    if isinstance(x, dict):
-        return {str(k): _jsonable(v) for k, v in x.items()}
-    if isinstance(x, (list, tuple, set, frozenset)):
-        return [_jsonable(v) for v in x]
-    if isinstance(x, (int, float, str, bool)) or x is None:
-        return x
-    return repr(x)
+    from .runner import jsonable
+
+    return jsonable(x)
 
 
 def unjson(x):
@@ -188,7 +182,7 @@ def main(argv=None):
         rp = NATIVE.get(uname)
         if rp is not None:
             try:
-                nat = rp(unjson(_jsonable(model)), oname)
+                nat = rp(unjson(model), oname)
             except Exception as e:  # noqa: BLE001
                 nat = {"confirmed": False, "detail": f"native replay raised {type(e).__name__}: {e}"}
         rec = {"property": a.prop, "unit": uname, "obligation": oname, "what": ex.get("detail", ""),
